@@ -5,6 +5,10 @@ VERIF = os.path.dirname(os.path.dirname(os.path.abspath(__file__)))
 ALL = ["C%02d" % i for i in range(1, 21)]
 
 CLAIMED = {
+ "C16": dict(
+    text="Type-directed generated expression trees built through the real operator overloads (plus a bounded-exhaustive family of left-deep operator chains and all five comparisons over 2 variables with constants -2..2), each compared under all 2^n assignments with a plain-int reference evaluation; normal-form and operand-immutability invariants checked on every built object. Sampling plus bounded exhaustion; no absence claim beyond the enumerated family.",
+    note="Trusted: Python int arithmetic; the reference evaluator (30 lines). Unsupported operand orders (TypeError) are outside the domain.",
+    technique="property-based testing (Hypothesis) + bounded exhaustive enumeration against a reference interpreter", ref="4/C16"),
  "C18": dict(
     text="Generated pairs of rectangles and single rectangles with cut coordinates / grid shapes on dyadic lattices, judged by an exact Fraction-arithmetic plane-geometry oracle; every Rectangle operation named in the property is compared bit for bit (exact inputs make the float evaluation exact). Sampling with measured class coverage, shrunk counterexamples, no absence claim.",
     note="Trusted: Python Fraction arithmetic and the ~100-line exact geometry module (self-tested at setup against cell counting). Inputs are dyadic; decimal coordinates are covered by C01/C03/C11.",
